@@ -346,45 +346,50 @@ def priceDirection (b : Book) (lp : Int) : PDir :=
   else if sellUnder > buyAt + buyOver then .decreasing
   else .staying
 
-structure MState where
-  bDone : List Tick     -- reversed
-  bRest : List Tick
-  sDone : List Tick     -- reversed
-  sRest : List Tick
+/-- what the two-sided loop leaves behind: the ticks (same shape as before), the quote dust it added and the price of
+its last iteration that matched (`none`: no iteration matched) -/
+structure LoopRes where
+  buys : List Tick
+  sells : List Tick
   q : Int
-  matchPrice : Int
-  matched : Bool
+  last : Option Int
 deriving DecidableEq, Repr
 
-def MState.book (s : MState) : Book := ⟨s.bDone.reverse ++ s.bRest, s.sDone.reverse ++ s.sRest⟩
-
-/-- the two-sided loop of `Match` (match.go:262-297); `none` = panic -/
-def matchLoop : Nat → Bool → MState → Option MState
-  | 0, _, s => some s
-  | fuel+1, incr, s =>
-    match s.bRest, s.sRest with
-    | bt :: bts, st :: sts =>
-      if bt.price < st.price then some s else
-      let p := if incr then st.price else bt.price
-      let bo := totalMatchable bt.orders p
-      let so := totalMatchable st.orders p
-      if ¬ (bo > 0) then matchLoop fuel incr { s with bDone := bt :: s.bDone, bRest := bts }
-      else if ¬ (so > 0) then matchLoop fuel incr { s with sDone := st :: s.sDone, sRest := sts }
-      else
-        match distributeToTick bt.orders (if bo ≤ so then bo else so) p with
+/-- the two-sided loop of `Match` (match.go:262-297) from tick positions `bi`, `si` on: the arguments are
+`ob.buys.ticks[bi:]`, `ob.sells.ticks[si:]`; `none` = panic.  Written as a recursion that hands back the
+ticks in place (Go mutates them in place); every iteration advances `bi` or `si`, so `fuel` = number of ticks. -/
+def matchLoop : Nat → Bool → List Tick → List Tick → Option LoopRes
+  | 0, _, bs, ss => some ⟨bs, ss, 0, none⟩
+  | fuel+1, incr, bt :: bts, st :: sts =>
+    if bt.price < st.price then some ⟨bt :: bts, st :: sts, 0, none⟩ else
+    let p := if incr then st.price else bt.price
+    let bo := totalMatchable bt.orders p
+    let so := totalMatchable st.orders p
+    if ¬ (bo > 0) then
+      match matchLoop fuel incr bts (st :: sts) with
+      | none => none
+      | some r => some { r with buys := bt :: r.buys }
+    else if ¬ (so > 0) then
+      match matchLoop fuel incr (bt :: bts) sts with
+      | none => none
+      | some r => some { r with sells := st :: r.sells }
+    else
+      match distributeToTick bt.orders (if bo ≤ so then bo else so) p with
+      | none => none
+      | some (bos, q1) =>
+        match distributeToTick st.orders (if so ≤ bo then so else bo) p with
         | none => none
-        | some (bos, q1) =>
-          match distributeToTick st.orders (if so ≤ bo then so else bo) p with
+        | some (sos, q2) =>
+          let bt' : Tick := { bt with orders := bos }
+          let st' : Tick := { st with orders := sos }
+          match matchLoop fuel incr (if bo ≤ so then bts else bt' :: bts) (if so ≤ bo then sts else st' :: sts) with
           | none => none
-          | some (sos, q2) =>
-            let bt' : Tick := { bt with orders := bos }
-            let st' : Tick := { st with orders := sos }
-            let s1 : MState :=
-              if bo ≤ so then { s with bDone := bt' :: s.bDone, bRest := bts } else { s with bRest := bt' :: bts }
-            let s2 : MState :=
-              if so ≤ bo then { s1 with sDone := st' :: s1.sDone, sRest := sts } else { s1 with sRest := st' :: sts }
-            matchLoop fuel incr { s2 with q := s.q + q1 + q2, matchPrice := p, matched := true }
-    | _, _ => some s
+          | some r =>
+            some { buys := if bo ≤ so then bt' :: r.buys else r.buys,
+                   sells := if so ≤ bo then st' :: r.sells else r.sells,
+                   q := q1 + q2 + r.q,
+                   last := some (r.last.getD p) }
+  | _, _, bs, ss => some ⟨bs, ss, 0, none⟩
 
 inductive MRes
   | panic
@@ -407,11 +412,12 @@ def matchBook (b : Book) (lp : Int) : MRes :=
       let (b1, q0, m0) := match r with
         | .ok b' q => (b', q, true)
         | _ => (b, 0, false)
-      match matchLoop (b1.buys.length + b1.sells.length + 1) (dir == .increasing)
-          { bDone := [], bRest := b1.buys, sDone := [], sRest := b1.sells, q := q0, matchPrice := lp, matched := m0 } with
+      match matchLoop (b1.buys.length + b1.sells.length) (dir == .increasing) b1.buys b1.sells with
       | none => .panic
-      | some s => if s.matched then .ok s.book s.matchPrice s.q else .noMatch
-
+      | some r =>
+        match r.last with
+        | some mp => .ok ⟨r.buys, r.sells⟩ mp (q0 + r.q)
+        | none => if m0 then .ok ⟨r.buys, r.sells⟩ lp (q0 + r.q) else .noMatch
 
 /-! ### Decidable forms of the property clauses (evaluated by the driver on REAL results)
 
@@ -463,5 +469,53 @@ def monFillPriceWithinLimit (pre post : List Order) : Bool :=
 /-- an order that was filled received a strictly positive amount -/
 def monMatchedReceivesPositive (pre post : List Order) : Bool :=
   (pre.zip post).all fun (o, o') => !(decide (o'.opn < o.opn)) || decide (o'.received > o.received)
+
+
+/-! ### Specification vocabulary (used by `Lemmas/AmmMatch.lean` and `Props/C05.lean`) -/
+
+/-- a well-formed order state: what `NewBaseOrder` / `NewUserOrder` / `NewPoolOrder` establish and every fill keeps.
+For a sell order the offer coin is the base coin itself, so what is still open must be covered by what is left of
+the offer (`MatchableAmount` does not look at the offer coin of a sell order). -/
+structure Wf (o : Order) : Prop where
+  price_pos : 0 < o.price
+  paid_nonneg : 0 ≤ o.paid
+  opn_nonneg : 0 ≤ o.opn
+  opn_le : o.opn ≤ o.amount
+  paid_le : o.paid + (if o.dir = .sell then o.opn else 0) ≤ o.offer
+
+/-- the fill price is not worse than the order's limit price -/
+def Within (o : Order) (p : Int) : Prop :=
+  match o.dir with
+  | .buy => p ≤ o.price
+  | .sell => o.price ≤ p
+
+/-- a `FillOrder` call the engine is allowed to make -/
+structure GoodFill (o : Order) (a p : Int) : Prop where
+  price_pos : 0 < p
+  pos : 0 < a
+  le : a ≤ matchableAmount o p                      -- the guard of `FillOrder`: no panic
+  worth : o.dir = .sell → 0 < quoteFloor p a        -- a seller is never filled for nothing
+  within : Within o p
+
+/-- `o'` is `o` after a finite sequence of allowed fills -/
+inductive Reach : Order → Order → Prop
+  | refl (o : Order) : Reach o o
+  | fill {o o₁ : Order} (a p : Int) : Reach o o₁ → GoodFill o₁ a p → Reach o (fillRaw o₁ a p).1
+
+/-- pointwise relation of two lists of the same length -/
+def All2 {α β : Type} (R : α → β → Prop) : List α → List β → Prop
+  | [], [] => True
+  | a :: as, b :: bs => R a b ∧ All2 R as bs
+  | _, _ => False
+
+/-- a tick after matching: same price, every order reached by allowed fills -/
+def TickReach (t t' : Tick) : Prop := t'.price = t.price ∧ All2 Reach t.orders t'.orders
+
+def BookReach (b b' : Book) : Prop := All2 TickReach b.buys b'.buys ∧ All2 TickReach b.sells b'.sells
+
+/-- a well-formed tick of one side: every order well-formed, of that side, at the tick's price -/
+def TickOk (d : Dir) (t : Tick) : Prop := ∀ o ∈ t.orders, Wf o ∧ o.dir = d ∧ o.price = t.price
+
+def BookOk (b : Book) : Prop := (∀ t ∈ b.buys, TickOk .buy t) ∧ (∀ t ∈ b.sells, TickOk .sell t)
 
 end Comdex.Amm
